@@ -57,7 +57,7 @@ def check(ctx):
     hist = [T.real("h_prev", "nonneg")]
     from ..model import options_model
     opts = options_model(repo, T, adaptive=True, dt_init=dt_init, adaptive_window=W)
-    me = Obj(None, {"d_psi_sq_vals": hist, "dt_max": dt_max, "tentative_dt": T.real("tentative_old"), "options": opts},
+    me = Obj(None, {"d_psi_sq_vals": hist, "dt_max": dt_max, "tentative_dt": T.real("tentative_old"), "options": opts, "xp": ModRef("numpy")},
              label="solver")
     decided = []
 
